@@ -621,8 +621,11 @@ CLAIMED["C02"] = dict(
          "C02_model_eq_spec_modes (documents) / _fragment (any context element): for every token list that keeps the "
          "tokenizer protocol the model's parse and Spec.TreeModes.parseDocument / parseFragment (2025 edition) make the same "
          "DOM calls in the same order (text compared per character, parse errors left out), reach the same quirks mode and "
-         "final insertion mode and give the same answers to the tokenizer; the only proviso on the spec side is the "
-         "standard's own Assert in 'in cell' (where the transcription throws, html5ever ignores the token). THE PROOF FOUND "
+         "final insertion mode and give the same answers to the tokenizer. C02_model_eq_spec_modes_strict / "
+         "_fragment_strict conclude parseDocument / parseFragment = .ok of the UNMODIFIED transcription (no development layer): "
+         "the standard's own Assert in 'in cell' is proved never to fail along these runs (C02_cell_assert_never_fails, via a "
+         "new invariant of the specification's own run over all 21 modes, Lemmas/HtmlTBModesInv*.lean) and the protocol "
+         "hypothesis has no adjusted-current-node clause any more. THE PROOF FOUND "
          "FOUR DEFECTS of html5ever (it could first be completed only against a specification carrying four deviations; each "
          "was confirmed on the real code and repaired, F38-F41: DOCTYPE in 'in table text', characters under a template "
          "current node in table modes, unmatched end tag reaching the root of a foreign-context fragment, <input> in a "
